@@ -156,6 +156,8 @@ class FnExprs:
             if 'fn' in op:
                 c = op['fn']
                 return ('fn', c['d'], callee_name(c))
+            if 'iv' in op:
+                return ('const', str(op['iv']))   # named integer constant, evaluated by the driver
             return ('const', op.get('v', '?'))
         return ('unknown', 'operand')
 
